@@ -10,6 +10,7 @@ REVERTS = {
  "revert-F3-empty-ext-fallback": ("C06", "reverts fix 8174703: undecodable empty extended commit info when the real one does not fit", "max_tx_bytes smaller than the encoded extended commit info at a height with vote extensions"),
  "revert-F4-ics20-partial": ("C18", "reverts fix cbb7ba0: a refused ICS20 receive to a bridge leaves the cached deposit", "an incoming packet to a bridge account (valid memo) that fails at a later step, e.g. more returned than escrowed"),
  "revert-F5-ibcrelay-auth": ("C06", "reverts fix aeec58e: unauthorized IbcRelay signer reported as non-fatal after Blackburn", "NOT OBSERVABLE while fix bb5bee6 is in place: the proposer now re-runs the mutable checks against the start-of-block state, which is what validators check; the revert is behaviour-preserving (equivalent change)"),
+ "revert-F15-finalize-redelivery": ("C05", "reverts fix 7049fba: FinalizeBlock skips execution whenever the execution cache matches, even if an earlier FinalizeBlock of the block already consumed the cached state", "the consensus engine of a node restarts alone between FinalizeBlock and Commit and replays the block against the surviving application (FinalizeBlock delivered twice before Commit)"),
  "revert-F6-stale-mempool-tx": ("C06", "reverts fix bb5bee6: mempool txs not re-checked against the start-of-block state before proposing", "a transaction queued behind a nonce gap whose mutable checks no longer hold at the start of the block but hold again after an earlier transaction of the same block"),
 }
 for d in sorted(glob.glob(os.path.join(V, "seeded", "*"))):
